@@ -30,11 +30,17 @@ func runC05(c *Check) error {
 			return err
 		}
 		c.ExploreNeeds(needs, nil)
+		needs, err = c.lexemeJobs("H_C05", ver, every, 3_000_000)
+		if err != nil {
+			return err
+		}
+		c.ExploreNeeds(needs, nil)
 	}
 	c.ExploreNeeds(longShapes("H_C05", 3_000_000), nil)
 	c.Bounds = append(c.Bounds, longBound,
 		"program shapes: the committed corpus (snippets of the repository's own tests + test.php lines + grammar sentences) under 7.4 and 5.6",
 		bound("S4: every %d-th inter-token gap of every snippet replaced by symbolic trivia (white space 1..2 bytes of every newline style, /*..*/, #..\\n%s)", every, map[bool]string{true: ", //..\\r\\n, /** */, 3-byte white space", false: ""}[rich]),
+		bound("S5: in every %d-th name, variable, integer, string body and inline-HTML token (by token context) one byte is symbolic within its lexical class (line terminators inside string bodies and HTML included), and a backslash followed by an arbitrary byte is inserted at the start of quoted string bodies", every),
 		"positions are concrete on each path; the solver enumerates the trivia variants around each shape")
 	return nil
 }
